@@ -391,7 +391,7 @@ impl IggyConsumer {
             last_stored_offsets.insert(partition_id, AtomicU64::new(0));
         }
 
-        if !allow_replay && (offset <= stored_offset && offset >= 1) {
+        if !allow_replay && (offset <= stored_offset && stored_offset >= 1) {
             trace!("Offset: {offset} is less than or equal to the last stored offset: {stored_offset} for consumer: {consumer}, partition ID: {partition_id}, topic: {topic_id}, stream: {stream_id}. Skipping storing the offset.");
             return Ok(());
         }
